@@ -86,8 +86,15 @@ func (t *TimerBasedElectionTrigger) Stop() {
 }
 
 func (t *TimerBasedElectionTrigger) CalcTimeout(view primitives.View) time.Duration {
-	timeoutMultiplier := time.Duration(int64(math.Pow(TIMEOUT_EXP_BASE, float64(view))))
-	return timeoutMultiplier * t.minTimeout
+	multiplier := math.Pow(TIMEOUT_EXP_BASE, float64(view))
+	if t.minTimeout <= 0 {
+		return t.minTimeout
+	}
+	// saturate instead of wrapping around (negative or zero timeouts for high views)
+	if multiplier >= float64(math.MaxInt64) || int64(multiplier) > math.MaxInt64/int64(t.minTimeout) {
+		return time.Duration(math.MaxInt64)
+	}
+	return time.Duration(int64(multiplier)) * t.minTimeout
 }
 
 func triggerElections(electionChannel chan *interfaces.ElectionTrigger, height primitives.BlockHeight, view primitives.View, triggerCancelled chan struct{}, electionsFunc func()) {
